@@ -136,18 +136,19 @@ func LoadKnown(path string) ([]Known, error) {
 // Run context
 
 type Ctx struct {
-	Prop     string
-	Tier     string
-	Seed     int64
-	Level    string
-	Goit     string // binary built from the current tree (tag verif)
-	GoitVFS  string // binary of the vfs-rewritten scratch copy (C15/C16), may be ""
-	GoitIn   string // in-process monitor binary, may be ""
-	GoitRace string // -race build (tripwire), may be ""
-	Scratch  string
-	VerifDir string
-	Workers  int
-	Start    time.Time
+	Prop      string
+	Tier      string
+	Seed      int64
+	forceDeep int
+	Level     string
+	Goit      string // binary built from the current tree (tag verif)
+	GoitVFS   string // binary of the vfs-rewritten scratch copy (C15/C16), may be ""
+	GoitIn    string // in-process monitor binary, may be ""
+	GoitRace  string // -race build (tripwire), may be ""
+	Scratch   string
+	VerifDir  string
+	Workers   int
+	Start     time.Time
 
 	mu           sync.Mutex
 	oracles      map[string]int64
@@ -368,6 +369,7 @@ type Monitor interface {
 type World struct {
 	C       *Ctx
 	Hist    int
+	deep    int // length of the working tree's absolute path if the sandbox is a deep one (0 otherwise)
 	SB      *sandbox.Sandbox
 	Rng     *rand.Rand
 	Steps   []*Step
@@ -389,13 +391,36 @@ func (c *Ctx) NewWorld(hist int, mons []Monitor) (*World, error) {
 	if hist%7 == 5 {
 		name = fmt.Sprintf("h%d proj[1] (copy) *?+%%s \u00e9", hist)
 	}
-	sb, err := sandbox.New(filepath.Join(c.Scratch, "sb"), name)
+	var sb *sandbox.Sandbox
+	var err error
+	l := DeepLen(hist)
+	if c.forceDeep > 0 {
+		l = c.forceDeep
+	}
+	if l > 0 {
+		// where the repository lives is part of the input (2): a working tree whose absolute path is l bytes long
+		sb, err = sandbox.NewDeep(filepath.Join(c.Scratch, "sb"), name, l)
+	} else {
+		sb, err = sandbox.New(filepath.Join(c.Scratch, "sb"), name)
+	}
 	if err != nil {
 		return nil, err
 	}
-	w := &World{C: c, Hist: hist, SB: sb, Mons: mons, Shadow: map[string]any{}, GoitBin: c.Goit,
+	w := &World{C: c, Hist: hist, SB: sb, Mons: mons, Shadow: map[string]any{}, GoitBin: c.Goit, deep: l,
 		Rng: rand.New(rand.NewPCG(uint64(c.Seed), uint64(hist)*2654435761+17))}
 	return w, nil
+}
+
+// DeepBase: histories numbered DeepBase+i live in a working tree whose absolute path is 4030+i%66 bytes long
+// (4030..4095): the files Goit keeps beneath it cross PATH_MAX one after the other (an object at 4040, the
+// temporary files around 4070, .goit itself at 4090).
+const DeepBase = 30_000_000
+
+func DeepLen(hist int) int {
+	if hist >= DeepBase && hist < DeepBase+1_000_000 {
+		return 4030 + (hist-DeepBase)%66
+	}
+	return 0
 }
 
 func (w *World) Close() { w.SB.Destroy() }
@@ -650,6 +675,7 @@ func (w *World) reproduces(steps []*Step, want map[string]bool) bool {
 	sub := NewCtx(w.C.Prop, w.C.Tier, w.C.Seed)
 	sub.Goit, sub.GoitVFS, sub.Scratch, sub.VerifDir = w.C.Goit, w.C.GoitVFS, w.C.Scratch, w.C.VerifDir
 	sub.NoShrink = true
+	sub.forceDeep = w.deep // a shrinking run lives in the same kind of place
 	w.C.mu.Lock()
 	w.C.shrinkRuns++
 	n := w.C.shrinkRuns
@@ -712,6 +738,11 @@ func (w *World) shrink(steps []*Step) []*Step {
 
 // RunHistories runs n independent histories on the worker pool.
 func (c *Ctx) RunHistories(n int, mons func() []Monitor, drive func(w *World)) {
+	c.RunHistoriesAt(0, n, mons, drive)
+}
+
+// RunHistoriesAt numbers the histories base, base+1, ... (the number selects the sandbox kind, see DeepLen).
+func (c *Ctx) RunHistoriesAt(base, n int, mons func() []Monitor, drive func(w *World)) {
 	jobs := make(chan int)
 	var wg sync.WaitGroup
 	for i := 0; i < c.Workers; i++ {
@@ -724,7 +755,7 @@ func (c *Ctx) RunHistories(n int, mons func() []Monitor, drive func(w *World)) {
 		}()
 	}
 	for h := 0; h < n; h++ {
-		jobs <- h
+		jobs <- base + h
 	}
 	close(jobs)
 	wg.Wait()
